@@ -172,6 +172,7 @@ type HistParams struct {
 	PReorg   int
 	DumpEvery int
 	Crashes  int
+	Scenario string
 }
 
 func (w *World) genHistory(p HistParams) *History {
@@ -368,6 +369,15 @@ func (w *World) genHistory(p HistParams) *History {
 	if len(h.Ops) > 0 {
 		h.Ops[len(h.Ops)-1].Dump = w.dump(h.NUT)
 	}
+	switch p.Scenario {
+	case "deepfork":
+		w.scenarioDeepFork(h, deliver)
+	case "bigblock":
+		w.scenarioBigBlock(h, deliver)
+	}
+	if len(h.Ops) > 0 && h.Ops[len(h.Ops)-1].Dump == nil {
+		h.Ops[len(h.Ops)-1].Dump = w.dump(h.NUT)
+	}
 	// crash / restart: from a committed state, start up again and offer the lost deliveries (with overlap)
 	for opi, snap := range h.snaps {
 		if len(h.Crashes) >= p.Crashes {
@@ -441,3 +451,84 @@ func (w *World) genHistory(p HistParams) *History {
 var _ = bytes.Equal
 var _ = transaction.TX_VERSION_STAKE
 var _ adb.DB
+
+
+// scenarioDeepFork: two long branches from an early block, each with its own delegate registration, staking and
+// staked blocks; the first branch is delivered completely, then the second (which ends heavier).
+func (w *World) scenarioDeepFork(h *History, deliver func(*TNode) *Op) {
+	rng := w.rng
+	base := w.nodeOfTop(h.NUT)
+	if base == nil {
+		return
+	}
+	grow := func(from *TNode, n int, wal int) []*TNode {
+		var out []*TNode
+		cur := from
+		for i := 0; i < n; i++ {
+			txs, meta, _ := w.genTxs(cur, 3, 0)
+			nb := w.build(cur, BlockSpec{TsDelta: 12000 + rng.UpTo(6000), Recipient: w.wallets[wal].Addr, Txs: txs, TxMeta: meta, Sign: 1})
+			w.admit(nb)
+			if !nb.Valid {
+				break
+			}
+			out = append(out, nb)
+			cur = nb
+		}
+		return out
+	}
+	a := grow(base, 11, 1)
+	b := grow(base, 13, 2)
+	for _, n := range a {
+		deliver(n)
+	}
+	for _, n := range b {
+		deliver(n)
+	}
+	h.Stats["scenario-deepfork"]++
+}
+
+// scenarioBigBlock: one block whose transactions exceed MAX_BLOCK_SIZE in total virtual size.
+func (w *World) scenarioBigBlock(h *History, deliver func(*TNode) *Op) {
+	parent := w.nodeOfTop(h.NUT)
+	if parent == nil || parent.Snap == nil {
+		return
+	}
+	height := parent.Block.Height + 1
+	var txs []*transaction.Transaction
+	var meta []TxMeta
+	w.view(parent.Snap, func(v *View) {
+		// the richest wallet signs a run of maximal-size transfers
+		best, bal := 0, uint64(0)
+		for i, wl := range w.wallets {
+			if b := v.State(wl.Addr).Balance; b > bal {
+				best, bal = i, b
+			}
+		}
+		wal := w.wallets[best]
+		st := v.State(wal.Addr)
+		vs := uint64(99 + config.MAX_OUTPUTS*24)
+		fee := minFee(height, vs)
+		n := int(config.MAX_BLOCK_SIZE/vs) + 2
+		if bal < uint64(n)*(fee+uint64(config.MAX_OUTPUTS)) {
+			return
+		}
+		for k := 0; k < n; k++ {
+			outs := make([]transaction.Output, config.MAX_OUTPUTS)
+			for i := range outs {
+				outs[i] = transaction.Output{Recipient: w.wallets[(best+1+i)%len(w.wallets)].Addr, Amount: 1}
+			}
+			t := &transaction.Transaction{Version: transaction.TX_VERSION_TRANSFER, Signer: wal.Pub, Nonce: st.LastNonce + 1 + uint64(k),
+				Data: &transaction.Transfer{Outputs: outs}, Fee: fee}
+			meta = append(meta, w.sign(t, wal))
+			txs = append(txs, t)
+		}
+	})
+	if len(txs) == 0 {
+		h.Stats["scenario-bigblock-skipped"]++
+		return
+	}
+	nb := w.build(parent, BlockSpec{TsDelta: 15000, Recipient: w.wallets[0].Addr, Txs: txs, TxMeta: meta, Note: "oversize"})
+	w.admit(nb)
+	deliver(nb)
+	h.Stats["scenario-bigblock"]++
+}
